@@ -13,10 +13,10 @@ from .eems2 import project_program, digest
 from .syntax import quote
 
 STRS = {"plain": "abc", "spaces": "two words  here", "dquote": 'say "hi"', "squote": "it's", "backslash": "C:\\temp\\new.csv",
-        "nonascii": "caf\u00e9 \u4e2d\u00df", "delims": "a,b=(c)[d]:#e", "empty": "", "numlike": "12", "boollike": "True", "padded": " x ",
+        "nonascii": "caf\u00e9 \u4e2d\u00df \U0001f600 \U0001d6fc", "delims": "a,b=(c)[d]:#e", "empty": "", "numlike": "12", "boollike": "True", "padded": " x ",
         "newline": "two\nlines\tand a tab", "hash": "# not a comment", "trailbs": "ends with \\", "path": "out dir/file.csv", "Float": "Float",
-        "key": "Display Name"}
-NUMS = {"int": 5, "zero": 0, "negint": -7, "bigint": 123456789012, "dec": 2.5, "negdec": -0.25, "smallexp": 1e-05, "bigexp": 1.5e+20, "exp22": 1e22,
+        "key": 'Display: "Name", [x]'}
+NUMS = {"int": 5, "zero": 0, "negint": -7, "bigint": 2 ** 70 + 1, "dec": 2.5, "negdec": -0.25, "smallexp": 1e-05, "bigexp": 1.5e+20, "exp22": 1e22,
         "tenth": 0.1, "whole": 100.0, "tiny": 5e-324}
 
 
